@@ -92,6 +92,31 @@ class PCT(Policy):
         return self._best(runnable)
 
 
+class SiteWeighted(Policy):
+    """Random walk whose switch probability at a line is k / (how often the dry
+    run executed that line), capped at 1/2: every *distinct* line gets about k
+    pre-emptions per run, so rarely executed lines (where shared state is set
+    up) are hit as often as the hot loops around them."""
+
+    wants_site = True
+
+    def __init__(self, seed, counts, k):
+        self.rng = random.Random(seed)
+        self.counts = counts or {}
+        self.k = float(k)
+
+    def at_step(self, n, cur, runnable, site=None):
+        if len(runnable) > 1:
+            c = self.counts.get(site, 1)
+            if self.rng.random() < min(0.5, self.k / c):
+                others = [t for t in runnable if t != cur]
+                return self.rng.choice(others)
+        return cur
+
+    def at_done(self, n, cur, runnable):
+        return self.rng.choice(runnable)
+
+
 class RunToCompletion(Policy):
     def __init__(self, seed, ntasks):
         order = list(range(ntasks))
@@ -129,8 +154,10 @@ class Explicit(Policy):
         return runnable[0] if t is None else t
 
 
-def make_policy(spec, ntasks, est_steps):
+def make_policy(spec, ntasks, est_steps, counts=None):
     kind = spec.get("policy", "rw")
+    if kind == "sw":
+        return SiteWeighted(spec.get("seed", 0), counts, spec.get("k", 1.0))
     if kind == "explicit":
         return Explicit(spec.get("decisions", []))
     seed = spec.get("seed", 0)
@@ -265,13 +292,20 @@ class Scheduler:
         return self.tasks
 
 
-def count_steps(scope_files, fn):
-    """Run fn on this thread under the tracer and return (result, steps)."""
+def count_steps(scope_files, fn, counts=None, limit=None, exc=None):
+    """Run fn on this thread under the tracer and return (result, steps).  If
+    counts (a dict) is given, executions per (file, line) are added to it.
+    Beyond `limit` steps `exc` is raised inside fn (deterministic hang guard)."""
     n = [0]
 
     def local(frame, event, arg):
         if event == "line":
             n[0] += 1
+            if limit is not None and n[0] > limit:
+                raise exc(f"more than {limit} traced steps")
+            if counts is not None:
+                k = (frame.f_code.co_filename, frame.f_lineno)
+                counts[k] = counts.get(k, 0) + 1
         return local
 
     def glob(frame, event, arg):
